@@ -9,11 +9,12 @@ from .lib.mir import AnchorLost
 CONFIGS_QUICK = ["A"]
 CONFIGS_THOROUGH = ["A", "R"]
 TECHNIQUE = "intra-procedural taint (provenance of every value pushed to the output) over all serializer methods; separator literal tables of writer vs reader; support matrix of serialize_*/deserialize_*"
-LEVEL_TEXT = ("Decides clauses C09-a/b: in every method of the URL-encoded Serializer and of its compound serializers, whatever is appended to the output is a "
-              "separator literal (& = ,), the literals true/false, the to_string of a numeric primitive, or the result of percent_encode -- a &str or char "
-              "parameter never reaches the output raw; the separators the writer emits are exactly the bytes the reader dispatches on; None/unit are written "
-              "as the empty section and read back by testing for it; for every serde data-model kind the serializer supports, the matching deserialize_* "
-              "is not an unconditional error. Decides these clauses, not round-trip equality for all values (e.g. the comma-separated sequence reader).")
+LEVEL_TEXT = ('Decides clauses C09-a/b/c: in every method of the URL-encoded Serializer and of its compound serializers, whatever is appended to the output is a '
+              'separator literal (& = ,), the literals true/false, the to_string of a numeric primitive, or the result of percent_encode -- a &str or char parameter '
+              'never reaches the output raw; the separators the writer emits are exactly the bytes the reader dispatches on; None/unit are written as the empty '
+              'section and read back by testing for it; for every serde data-model kind the serializer supports, the matching deserialize_* is not an unconditional '
+              'error; deserialize_char accepts exactly the decoded texts of one Unicode scalar value (decided by the char iterator, not by a byte length). Decides '
+              'these clauses, not round-trip equality for all values (e.g. the comma-separated sequence reader).')
 
 SER = r"ohkami_lib::serde_urlencoded::ser::URLEncodedSerializer"
 NUMERIC = {"u8", "u16", "u32", "u64", "u128", "usize", "i8", "i16", "i32", "i64", "i128", "isize", "f32", "f64"}
